@@ -249,6 +249,7 @@ Definition err_eqb (a b : err) : bool :=
   match a, b with
   | ERes c m, ERes c' m' => beq c c' && beq m m'
   | EPlain m, EPlain m' => beq m m'
+  | ENilRes, ENilRes => true
   | _, _ => false
   end.
 Definition aret_eqb (a b : aret) : bool :=
